@@ -62,7 +62,7 @@ package drpcmigrate
 //@   props C16
 //@   requires d.Conn != nil
 //@   modifies *
-//@   site Write assert [C16.passthrough] arg1 == buf
+//@   site Write#1 assert [C16.passthrough] arg1 == buf
 //@   check [C16.count]     0 <= n && n <= len(buf)
 //@   check [C16.once-skip] eventCount("once-skip") == 1 ==> eventCount("invoke:Write") == 1
 //@   check [C16.single-write] eventCount("invoke:Write") == 1
